@@ -337,21 +337,30 @@ def luhn(rep, ns):
         raise AnalysisError('%s:%d checksum() is not the reversed even/odd Luhn sum the rule understands' % (relpath, ck.lineno))
     T = validate_wiring(rep, relpath, funcs)
     gen = need(funcs, 'calc_check_digit', relpath)
-    g = match_stmts('V_ck = checksum(str(%s) + %s[0], %s)\nreturn E_pick' % (gen.args.args[0].arg, gen.args.args[1].arg, gen.args.args[1].arg),
-                    strip_doc(gen.body))
+    g = match_stmts('V_ck = checksum(E_probe, %s)\nreturn E_pick' % gen.args.args[1].arg, strip_doc(gen.body))
     if g is None:
-        raise AnalysisError('%s:%d calc_check_digit() is not checksum(number + alphabet[0]) followed by a table pick' % (relpath, gen.lineno))
+        raise AnalysisError('%s:%d calc_check_digit() is not checksum(<payload + placeholder>, alphabet) followed by a table pick' % (relpath, gen.lineno))
     dfl = defaults(ck).get(alpha)
     import string
     full = string.digits + string.ascii_uppercase + string.ascii_lowercase
-    for n in ns:
-        alph = dfl if (dfl is not None and n == len(dfl)) else full[:n]
+    alphabets = [(n, dfl if (dfl is not None and n == len(dfl)) else full[:n]) for n in ns]
+    alphabets.append((6, 'abcdef'))                      # an alphabet that does not start with the character '0'
+    alphabets.append((16, 'ABCDEFGHIJKLMNOP'))
+    for n, alph in alphabets:
+        # the generator probes with payload + <symbol of value 0>
+        try:
+            probe = ev(g['E_probe'], {gen.args.args[0].arg: '', gen.args.args[1].arg: alph})
+        except Undecidable as e:
+            probe = None
+        rep.check(probe == alph[0], 'ALG.GEN', relpath, 'calc_check_digit', 'placeholder for alphabet %r' % alph, gen.lineno,
+                  'the generator appends %r as placeholder, the symbol of value 0 in this alphabet is %r: the residue it reads is not that of '
+                  'payload + zero, so the generated character is rejected' % (probe, alph[0]), what='alphabet %r: placeholder %r' % (alph, probe))
         env = {b['V_n'].id: n, alpha: alph}
         try:
             D = [ev(b['E_dbl'], dict(env, **{b['V_j'].id: v})) for v in range(n)]
         except Undecidable as e:
             raise AnalysisError('%s: doubling expression cannot be tabulated: %s' % (relpath, e))
-        lab = 'luhn mod %d' % n
+        lab = 'luhn mod %d (%s)' % (n, alph[:6])
         # machine: state (sum mod n, parity); reversed processing: parity 0 = plain, 1 = doubled
         fsm = FSM([(s, p) for s in range(n) for p in (0, 1)], list(range(n)), period=1)
         for s in range(n):
@@ -489,6 +498,15 @@ def check(tier):
                  trusted=['CPython ast', 'sa/minieval.py (whitelisted expression evaluator over finite domains)', 'sa/alg/LEMMAS.md'],
                  assumptions=['caller supplied alphabets are those tabulated: 0-9, 0-9X, 0-9A-F, 0-9A-Z, 0-9A-Z*, Luhn even N in 2..40',
                               'characters outside the alphabet raise inside the catch-all (C01)'])
+    analyse(rep, tier)
+    rep.unit('modules', 8)
+    rep.expect_at_least('ALG.SUB', 100, 'state rows')
+    rep.expect_at_least('ALG.GEN', 100, 'generator states')
+    rep.not_decided = ['alphabets/tables other than the tabulated ones', 'behaviour on characters outside the alphabet (C01)']
+    return rep.finish()
+
+
+def analyse(rep, tier):
     luhn_ns = list(range(2, 41, 2)) if tier == 'thorough' else [2, 10, 16, 36, 40]
     iso_fold(rep, 'stdnum/iso7064/mod_11_2.py', ['0123456789X'], want_trans=True, label='11-2')
     iso_fold(rep, 'stdnum/iso7064/mod_37_2.py', [None, '0123456789X'], want_trans=True, label='37-2')
@@ -498,8 +516,3 @@ def check(tier):
     luhn(rep, luhn_ns)
     verhoeff(rep)
     damm(rep)
-    rep.unit('modules', 8)
-    rep.expect_at_least('ALG.SUB', 100, 'state rows')
-    rep.expect_at_least('ALG.GEN', 100, 'generator states')
-    rep.not_decided = ['alphabets/tables other than the tabulated ones', 'behaviour on characters outside the alphabet (C01)']
-    return rep.finish()
